@@ -44,7 +44,13 @@ SPEC = {
              "ListField(SecureField(m)) and DictField(StringField(), SecureField(m)); two matrix shapes (containers at the "
              "root + nested; containers inside items of ListField(schema) / ListField(config type) and below an item's "
              "sub-configuration) and ~30%/20% of random configurations; histories assign lists of 0-3 and maps of 0-3 "
-             "plaintexts incl. ''"),
+             "plaintexts incl. ''. Key-file names with ~ (root, nested, class-level; existing or created): 81 matrix cases "
+             "and ids 6/7 in the random histories. Two configurations A, B of one schema with different root key files: "
+             "216 matrix cases = 3 methods x 18 routes of moving Config objects A -> B (sub-configuration by attribute / "
+             "item / dotted assignment, at depth 1 and 2; list assignment, b.l[:] = [..], b.l[:] = a.l, b.l = a.l, "
+             "b.l = a.l.copy(), b.l[i] = x, append, extend([..]), += [..], insert, extend(a.l), += a.l, b.l = b.l + a.l) "
+             "x B root key file {named, default} x moved configuration names its own key file {no, yes}, and every "
+             "4th random case (1-3 moves, then further assignments / dumps on B)"),
     "trusted_base": [KERNEL, "Print Assumptions: closed under the global context (no axioms)", TIE, HARNESS,
                      "modelled, not verified: cipher / base64 / utf-8 as abstract functions with dec(enc p) = p and "
                      "unb64(b64 x) = x as hypotheses; os.urandom named by its consumer (key-file path, secret); the file "
@@ -53,7 +59,14 @@ SPEC = {
                      "the order in which a document's keys are processed is not modelled (file sets, not sequences, are "
                      "compared); a load that raises is observed as 'broken' and its opened files are checked by the direct "
                      "oracle only"],
-    "assumptions": ["a ListField(SecureField) / DictField(StringField, SecureField) of a configuration is given to the model "
+    "assumptions": ["moving a configuration object from one configuration into another is modelled (Secrets.v sop2 / "
+                    "OMove, definitions only) as placing the sub-tree, own key file included, at the new position; the "
+                    "theorems hold for every tree, hence for the result; the source configuration still refers to the moved "
+                    "object (aliasing is outside the model) and is not used again by the stream after the first move",
+                    "a key-file name containing ~ is just another path for the model; that read and create use the same "
+                    "expanded location and that an existing key file is never rewritten is checked by the direct oracle "
+                    "(audited opens, bytes before/after) and by the model's read/created sets",
+                    "a ListField(SecureField) / DictField(StringField, SecureField) of a configuration is given to the model "
                     "as 3 extra secrets of that configuration named f[0..2] / f[a|b|c] (same key file, same method, one "
                     "key-file context per non-empty item, empty item = null): Secrets.v has no separate container construct, "
                     "the harness flattens the rendered list / map into those slots before the comparison, so the theorems "
